@@ -1002,7 +1002,12 @@ void World::pump(uint64_t until) {
         } else if (e.type == 1) {
             Node &n = *nodes[e.node];
             if (e.gen != n.tick_gen) continue;
-            if (n.busy_until > now) { n.pending[e.seq] = std::make_shared<Event>(e); set_wake(n, e.node); continue; }
+            if (n.busy_until > now) {
+                // the timer fires while the thread is away for a long time (suspended host, stalled process): the frames that reached the socket before this
+                // instant are read first when it comes back - a select loop returns the readable socket before it looks at its timeout
+                if (n.busy_until - now > 1000) e.seq = ++seq;
+                n.pending[e.seq] = std::make_shared<Event>(e); set_wake(n, e.node); continue;
+            }
             do_tick(e.node);
             schedule_tick(e.node);
         } else if (e.fn) e.fn();
